@@ -15,7 +15,9 @@ package main
 
 import (
 	"fmt"
+	"os"
 	"sort"
+	"time"
 
 	"verif/harness/hmain"
 	"verif/harness/hx"
@@ -23,8 +25,12 @@ import (
 
 var execStats = map[string]int{}
 
+var execTime = map[int]time.Duration{}
+
 func c13Exec(which int, cs hx.Sx) hx.Sx {
 	if which >= 0 && which < 30 {
+		t0 := time.Now()
+		defer func() { execTime[which] += time.Since(t0) }()
 		return execChain(cs, execStats)
 	}
 	return execModel(which, cs)
@@ -43,6 +49,30 @@ func plugSx(typ, cfg string, st [3]int) hx.Sx {
 
 func evSx(text string) hx.Sx { return hx.L(hx.S(text), hx.I(len(text))) }
 
+// streamFor: cases that contain an input of a recorded finding run under the finding's own stream
+func streamFor(base string, hasK8s bool, evs []hx.Sx) string {
+	lenient, bad := false, false
+	for _, e := range evs {
+		if hx.IsInt(e) {
+			continue
+		}
+		text := hx.Bytes(hx.Items(e)[0])
+		if lenientJSON(text) {
+			lenient = true
+		}
+		if hasK8s && k8sBad(text) {
+			bad = true
+		}
+	}
+	switch {
+	case bad:
+		return "k8s-bad-log"
+	case lenient:
+		return "lenient-json"
+	}
+	return base
+}
+
 // settings that matter to a plugin (only the k8s multiline action reads them)
 func settingsFor(r *hx.Rng, typ string) [3]int {
 	if typ != "k8s-multiline" || r == nil {
@@ -51,12 +81,14 @@ func settingsFor(r *hx.Rng, typ string) [3]int {
 	switch r.Intn(4) {
 	case 0:
 		return [3]int{0, 0, 0}
+	// max_event_size below the size of any event is not a reachable setting: pipeline.In drops or
+	// cuts such events before they reach an action
 	case 1:
-		return [3]int{r.Range(1, 40), 0, 0}
+		return [3]int{r.Range(16, 60), 0, 0}
 	case 2:
-		return [3]int{r.Range(1, 40), 1, 0}
+		return [3]int{r.Range(16, 60), 1, 0}
 	default:
-		return [3]int{r.Range(1, 400), 1, 1}
+		return [3]int{r.Range(16, 400), 1, 1}
 	}
 }
 
@@ -102,7 +134,7 @@ func c13Gen(c *hmain.Ctx) {
 					v1 := catalogue[i]
 					v2 := catalogue[(i+1)%len(catalogue)]
 					evs := []hx.Sx{evSx(catDoc(v1, shape)), evSx(catDoc(v2, shape)), hx.I(0)}
-					c.Do("catalogue", pi, hx.L(hx.L(plugSx(p.typ, cf, settingsFor(nil, p.typ))), hx.L(evs...)), true)
+					c.Do(streamFor("catalogue", p.typ == "k8s-multiline", evs), pi, hx.L(hx.L(plugSx(p.typ, cf, settingsFor(nil, p.typ))), hx.L(evs...)), true)
 				}
 			}
 		}
@@ -129,7 +161,7 @@ func c13Gen(c *hmain.Ctx) {
 					evs = append(evs, evSx(g.event()))
 				}
 			}
-			c.Do("random", pi, hx.L(hx.L(plugSx(p.typ, cf, settingsFor(r, p.typ))), hx.L(evs...)), len(evs) >= 2)
+			c.Do(streamFor("random", p.typ == "k8s-multiline", evs), pi, hx.L(hx.L(plugSx(p.typ, cf, settingsFor(r, p.typ))), hx.L(evs...)), len(evs) >= 2)
 		}
 	}
 
@@ -143,6 +175,10 @@ func c13Gen(c *hmain.Ctx) {
 			if plugins[pi].typ == "discard" && j < n-1 {
 				pi = pluginIdx["decode"]
 			}
+			if plugins[pi].typ == "k8s-multiline" && j > 0 {
+				// the k8s input installs its multiline action right behind itself: always first
+				pi = pluginIdx["json_decode"]
+			}
 			if first < 0 {
 				first = pi
 			}
@@ -154,15 +190,22 @@ func c13Gen(c *hmain.Ctx) {
 		for j := 0; j < k; j++ {
 			if j > 0 && r.Chance(1, 8) {
 				evs = append(evs, hx.I(0))
+			} else if plugins[first].typ == "k8s-multiline" && r.Chance(9, 10) {
+				evs = append(evs, evSx(`{"log":`+q(g.str()+hx.Pick(r, []string{"", "\n"}))+`,"message":`+g.value(1)+`,"a":`+g.value(2)+`}`))
 			} else {
 				evs = append(evs, evSx(g.event()))
 			}
 		}
-		c.Do("chain", first, hx.L(hx.L(pl...), hx.L(evs...)), true)
+		c.Do(streamFor("chain", plugins[first].typ == "k8s-multiline", evs), first, hx.L(hx.L(pl...), hx.L(evs...)), true)
 	}
 
 	genModels(c)
 
+	if os.Getenv("C13_TIMES") != "" {
+		for i, p := range plugins {
+			fmt.Fprintf(os.Stderr, "time %-20s %v\n", p.typ, execTime[i])
+		}
+	}
 	keys := make([]string, 0, len(execStats))
 	for k := range execStats {
 		keys = append(keys, k)
